@@ -940,6 +940,18 @@ class Interp:
         cur = self.ev(ast.copy_location(self._load(s.target), s.target), fr)
         v = self.ev(s.value, fr)
         opn = type(s.op).__name__
+        # frame: `x += ...` on an array value that IS (same object) a field of some operator instance updates that
+        # instance's data in place when the array is a mutable numpy.ndarray (jax arrays rebind, numpy arrays do not)
+        if isinstance(s.target, ast.Name) and getattr(self.theory, 'array_like', None) is not None \
+                and self.theory.array_like(cur):
+            for o in Obj._live:
+                for fname, fv in o.fields.items():
+                    if fv is cur:
+                        self.run.oblige(f'{self.cur_name()}/frame:no-in-place-update-of-{o.cls.name}.{fname}', False,
+                                        kind='frame', meta=dict(self._scenario_meta(), note=(
+                                            f'`{s.target.id} {ast.unparse(s.op) if hasattr(ast, "unparse") else ""}= ...` at '
+                                            f'{fr.func.fullname if fr.func else "?"}:{s.lineno} updates in place the array '
+                                            f'held by field {fname!r} of a {o.cls.name} when it is a numpy.ndarray')))
         if isinstance(cur, B.PyList) and opn == 'Add':
             cur.extend(self, v)
             return
@@ -949,6 +961,15 @@ class Interp:
                 self.assign(s.target, self.call_method(cur, '__i' + self.DUNDER[opn] + '__', [v], {}), fr)
                 return
         self.assign(s.target, self.binop(opn, cur, v), fr)
+
+    def _scenario_meta(self):
+        S = getattr(self.run, '_S', None)
+        if S is None:
+            return {}
+        m = {'inputs': dict(S.inputs), 'func': S.func_name, 'scenario': S.label}
+        if S.oracle:
+            m['oracle'] = S.oracle
+        return m
 
     @staticmethod
     def _load(t):
